@@ -16,6 +16,7 @@ import (
 type vpC03Opts struct {
 	kinds   []int
 	twoPods bool
+	pools   bool
 }
 
 func (w *vpWorld) appExists(kind int) (bool, int32) {
@@ -74,6 +75,9 @@ func (w *vpWorld) checkReleaseContract(kind int) {
 			continue
 		}
 		k := util.ParseKey(e.Key)
+		if k.PoolName != "" {
+			continue // IPs of a named pool are kept until an administrator releases them (checked by reserved-not-freed)
+		}
 		if k.PodName == "" {
 			// app reserve key of an immutable/never deployment
 			if k.Deployment() && e.Policy == 1 {
@@ -108,7 +112,7 @@ func (w *vpWorld) checkReleaseContract(kind int) {
 }
 
 // checkNotOverReleased: an IP that the contract reserves was not freed (never policy; immutable with the pod still inside the replica range).
-func (w *vpWorld) checkNotOverReleased(kind int, policy string, ip string, podName string, apiReleased bool) {
+func (w *vpWorld) checkNotOverReleased(kind int, policy string, pool string, ip string, podName string, apiReleased bool) {
 	if apiReleased {
 		return
 	}
@@ -125,7 +129,7 @@ func (w *vpWorld) checkNotOverReleased(kind int, policy string, ip string, podNa
 	idx, err := parsePodIndex(podName)
 	supportsNever := kind == vpKindSts || kind == vpKindDp || err == nil
 	supportsImmutable := kind == vpKindSts || kind == vpKindDp || (kind == vpKindTApp && err == nil)
-	keptNever := verifAnd(policy == "never", supportsNever)
+	keptNever := verifAnd(verifOr(policy == "never", pool != ""), supportsNever) // a named pool forces the never policy
 	var keptImmutable bool
 	if kind == vpKindDp {
 		keptImmutable = verifAnd(policy == "immutable", exists && replicas >= 1)
@@ -145,7 +149,11 @@ func vpC03Lifecycle(o vpC03Opts) {
 	w.setReplicas(kind, 2)
 	podIdx := nondetChoice(2)
 	name := vpPodNameOf(kind, podIdx)
-	w.createPod(vpMakePod(name, "U1", kind, policy, "", ""))
+	pool := ""
+	if o.pools && (kind == vpKindDp || kind == vpKindSts) && nondetBool() {
+		pool = "p1" // a named pool without a Pool object
+	}
+	w.createPod(vpMakePod(name, "U1", kind, policy, pool, ""))
 	w.syncListers()
 	nodes, err := w.filter(name, "n1", "n2", "n3")
 	if err != nil || len(nodes) == 0 {
@@ -159,7 +167,7 @@ func vpC03Lifecycle(o vpC03Opts) {
 	other := ""
 	if o.twoPods {
 		other = vpPodNameOf(kind, 1-podIdx)
-		w.createPod(vpMakePod(other, "V1", kind, policy, "", ""))
+		w.createPod(vpMakePod(other, "V1", kind, policy, pool, ""))
 		w.syncListers()
 		if nodes, err := w.filter(other, "n1", "n2", "n3"); err == nil && len(nodes) > 0 {
 			if w.bind(other, nodes[0]) == nil {
@@ -214,15 +222,15 @@ func vpC03Lifecycle(o vpC03Opts) {
 	w.resync()
 	verifReach("quiescent")
 	w.checkReleaseContract(kind)
-	w.checkNotOverReleased(kind, policy, ip, name, apiReleased)
+	w.checkNotOverReleased(kind, policy, pool, ip, name, apiReleased)
 	verifAssert("C03/agree", w.agree(), "memory and store disagree at quiescence")
 	_ = other
 	_ = corev1.PodRunning
 }
 
-// BOUND: topology 0; kinds {statefulset, deployment, scalable custom resource TApp, bare pod}; policy symbolic {default, immutable, never}; pod index 0 or 1, replicas start at 2; workload action {none, scale to symbolic 0..2, delete} before or after the pod ends; pod end {delete, finish+delete, finish}; every pending event handled or lost; symbolic lister lag; then caches catch up and one resync pass
+// BOUND: topology 0; kinds {statefulset, deployment, scalable custom resource TApp, bare pod}; policy symbolic {default, immutable, never}; statefulset and deployment pods optionally use a named pool p1 (no Pool object); pod index 0 or 1, replicas start at 2; workload action {none, scale to symbolic 0..2, delete} before or after the pod ends; pod end {delete, finish+delete, finish}; every pending event handled or lost; symbolic lister lag; then caches catch up and one resync pass
 func VerifC03_q_lifecycle() {
-	vpC03Lifecycle(vpC03Opts{kinds: []int{vpKindSts, vpKindDp, vpKindTApp, vpKindBare}})
+	vpC03Lifecycle(vpC03Opts{kinds: []int{vpKindSts, vpKindDp, vpKindTApp, vpKindBare}, pools: true})
 }
 
 // BOUND: as above with a second pod of the same workload bound alongside
